@@ -111,6 +111,15 @@ def handle (cmd : String) (args : List Int) : Option String :=
       let (t, c) ← run (do let t ← rows; let c ← rows; pure (t, c)) args
       pure (encBool (t.length == c.length &&
         (List.zip t c).all (fun p => p.2.length == p.1.length && faceOf (collapseRow p.2) == faceOf p.1)))
+  | "C07.tables" => do
+      -- carried-over connectivity tables of a re-opened grid: name, start_index attribute of the
+      -- export (flag, value), the grid's table, the re-opened grid's table
+      let ts ← run (list (do
+        let n ← nameP; let has ← bool; let sv ← int; let a ← rows; let b ← rows
+        pure (n, (if has then some sv else none), a, b))) args
+      let f1 := carriedFailing ts
+      let f2 := carriedModelDiffers ts
+      pure (s!"{encNames f1} {encNames f2}")
   | "C07.rt" => do
       let (f, orig, got) ← run (do let f ← fmtP; let a ← rows; let b ← rows; pure (f, a, b)) args
       let fl := failing f orig got
